@@ -1,17 +1,33 @@
-"""Per-property manifest entries (hand-maintained; mkmanifest.py renders MANIFEST.json)."""
+"""Per-property manifest entries (hand-maintained; mkmanifest.py renders MANIFEST.json).
+
+'text' of level_claimed is the RULE string of the property module (what is enumerated, bound, oracle); the
+entries here add the engine, the technique label and the trusted base.
+"""
 
 _X1_NOTE = (
-    "Trusted: the harness (virtual asyncio loop, baton scheduler, fake devices) and the oracle. Assumes requests land at "
-    "loop-callback boundaries, fake devices instead of ophyd, virtual time, no SIGINT path; bounds are those echoed in the evidence file."
+    "Trusted: the harness (hand-stepped asyncio loop, baton scheduler for request threads, fake devices) and the oracle. Assumes requests "
+    "land at loop-callback boundaries, fake devices instead of ophyd, virtual time, no SIGINT path; bounds are echoed in the evidence file."
 )
+_G_NOTE = (
+    "Trusted: the program grammar compiler, the driver-script explorer and the reference generators written with plain try/except/finally. "
+    "Programs and scripts beyond the stated size are not covered."
+)
+_S_NOTE = "Trusted: the reference model / independent re-computation written in the check; inputs beyond the stated alphabet and size are not covered."
 
-CHECKS = {
-    "C01": {
-        "engine": "X1",
-        "technique": "stateless bounded model checking of the implementation: exhaustive enumeration of request-injection positions, device faults and caller decisions",
-        "text": "Every execution of the corpus scenarios with <=1 deviation (quick) / <=2 on the small scenarios (thorough) - a pause, deferred pause, abort, stop, halt or suspension at every event-loop position, a raising device op or failing status at every ledger op - times every post-pause decision is run on the real RunEngine and its document stream checked run-wise (one start, one stop once idle, references backwards only, schema-valid, no uid twice).",
-        "note": _X1_NOTE,
-    },
-}
+T_X1 = "stateless bounded model checking of the implementation: exhaustive enumeration of request-injection positions, device faults and caller decisions on the real RunEngine (deviation-bounded)"
+T_G = "bounded exhaustive exploration of the generator protocol: all small plan programs x all send/throw/close driver scripts on the real preprocessors, differential against reference generators"
+T_S = "bounded exhaustive enumeration of inputs / operation histories on the real code against a reference model"
+T_SBFS = "explicit-state search over operation histories of the real object (state-hash dedup) against a reference model"
 
+ENGINE = {}
+for _p in ("C01 C02 C03 C04 C05 C06 C07 C08 C09 C10 C11 C12 C13 C14 C31 C40 C41 C42").split():
+    ENGINE[_p] = ("X1", T_X1, _X1_NOTE)
+for _p in ("C20 C21 C22 C23 C32").split():
+    ENGINE[_p] = ("G", T_G, _G_NOTE)
+for _p in ("C15 C16 C17 C19 C24 C25 C26 C27 C28 C29 C33 C34 C35 C36 C37 C38 C39 C44 C45 C46").split():
+    ENGINE[_p] = ("S", T_S, _S_NOTE)
+for _p in ("C18 C30 C43").split():
+    ENGINE[_p] = ("S", T_SBFS, _S_NOTE)
+
+# properties for which no claim is made, with the reason
 NOT_APPLICABLE = {}
